@@ -116,6 +116,37 @@ def check_file(res, f, where=''):
     return got
 
 
+def deferred_consumption(res, rng):
+    """Two parses requested on one parser object before either is consumed (generators are lazy), then consumed one
+    after the other: each dump's sections, inspected right after its own exhaustion, must be its own."""
+    from pykdebugparser.kd_buf_parser import KdBufParser
+    fa, fb = gen.gen_v3(rng), gen.gen_v3(rng)
+    parser = KdBufParser({}, {})
+    try:
+        ga, gb = parser.parse(io.BytesIO(fa['data'])), parser.parse(io.BytesIO(fb['data']))
+        for f, g in ((fa, ga), (fb, gb)):
+            items = list(g)
+            m = f['model']
+            got = {'trace_codes': parser.trace_codes, 'kernel_extensions': parser.kernel_extensions.get('Binaries'),
+                   'dyld_modules': parser.dyld_modules, 'processes': parser.processes, 'images': parser.images}
+            want = {'trace_codes': m['trace_codes'], 'kernel_extensions': m['kexts'],
+                    'dyld_modules': m['dyld'] if m['dyld'] is not None else {}, 'processes': m['processes'],
+                    'images': m['images']}
+            res.count('deferred_parses_checked')
+            for k in want:
+                if got[k] != want[k]:
+                    res.violation(f'c03-meta-{k}', f'two parses requested up front on one parser object, consumed in turn: '
+                                  f'{k} after exhausting dump {"AB"[f is fb]} is {str(got[k])[:200]}, its payload says '
+                                  f'{str(want[k])[:200]}', {'file': f['data'], 'other': (fb if f is fa else fa)['data']})
+                    return
+            n_ev = sum(1 for x in items if hasattr(x, 'debugid'))
+            if n_ev != len(f['records']):
+                res.violation('c03-events', f'deferred consumption: {n_ev} events of {len(f["records"])}', {'file': f['data']})
+                return
+    except Exception as e:
+        res.violation(f'c03-raises-{core.exc_name(e)}', f'deferred consumption of two parses: {e!r}', {'file': fa['data']})
+
+
 def partition_check(res, f):
     """kevents / os_log_events partition the stream."""
     from pykdebugparser.pykdebugparser import PyKdebugParser
@@ -145,6 +176,8 @@ def run(ctx):
             res.case(f['data'], nontrivial=bool(f['records'] or f['spec'].blocks))
             if i % 5 == 0:
                 partition_check(res, f)
+            if i % 4 == 0:
+                deferred_consumption(res, rng)
         # large dumps: many records in many chunks, hundreds of thread-map entries and log records
         for m in ctx.pick((2000,), (70000, 3000)):
             recs = gen.gen_records(rng, m, first_nonzero=False)
@@ -190,6 +223,7 @@ def run(ctx):
     res.require('chunkings_executed', 1)
     res.require('files_with_empty_chunk', 1)
     res.require('contract_evaluations', 1)
+    res.require('deferred_parses_checked', 4)
     return res
 
 
